@@ -1,7 +1,6 @@
 package rules
 
 import (
-	"strconv"
 	"strings"
 
 	"golang.org/x/tools/go/ssa"
@@ -102,9 +101,9 @@ func c08Store(c *core.Ctx) { storeRule(c, "C08-store") }
 func storeRule(c *core.Ctx, rule string) {
 	// the node / root lookups select by exactly the key they are given
 	checkOrdered(c, rule, []orderedSpec{
-		{"tree", "Tree", "getRHTNode", "VAR_T_RHTTABLE", "", []string{"HASH = $1"}, nil, []string{"(github.com/ethereum/go-ethereum/common.Hash).String(nodeHash)"}},
-		{"tree", "Tree", "GetRootByIndex", "VAR_T_ROOTTABLE", "", []string{"POSITION = $1"}, nil, []string{"index"}},
-		{"tree", "Tree", "GetRootByHash", "VAR_T_ROOTTABLE", "", []string{"HASH = $1"}, nil, []string{"(github.com/ethereum/go-ethereum/common.Hash).Hex(hash)"}},
+		{"tree", "Tree", "getRHTNode", "TREE:RHT", "", []string{"HASH = $1"}, nil, []string{"(github.com/ethereum/go-ethereum/common.Hash).Hex(nodeHash)"}},
+		{"tree", "Tree", "GetRootByIndex", "TREE:ROOT", "", []string{"POSITION = $1"}, nil, []string{"index"}},
+		{"tree", "Tree", "GetRootByHash", "TREE:ROOT", "", []string{"HASH = $1"}, nil, []string{"(github.com/ethereum/go-ethereum/common.Hash).Hex(hash)"}},
 	})
 	// and answer "found" only with what the query read: no successful return that did not pass the query's nil error
 	for _, name := range []string{"getRHTNode", "GetRootByIndex", "GetRootByHash"} {
@@ -121,6 +120,16 @@ func storeRule(c *core.Ctx, rule string) {
 		ok := q != nil
 		if q != nil {
 			read := core.NilEdgesRes(fn, q, true)
+			// … or of a translation of that error that is nil exactly when it is (db.ReturnErrNotFound and the like)
+			core.Instrs(fn, func(i ssa.Instruction) {
+				cl, isCall := i.(*ssa.Call)
+				if !isCall || len(cl.Call.Args) != 1 || !sameLeafValue(cl.Call.Args[0], ssa.Value(q)) {
+					return
+				}
+				if g := cl.Call.StaticCallee(); g != nil && nilPreserving(g) {
+					read = append(read, core.NilEdgesRes(fn, cl, true)...)
+				}
+			})
 			for _, rc := range core.ReturnCases(fn) {
 				// a return that hands the query's own error on (`return row, translate(err)`) succeeds exactly when the query did
 				if len(rc.Values) == 2 && isNilConst(rc.Values[1]) {
@@ -180,25 +189,21 @@ func storeRule(c *core.Ctx, rule string) {
 	lr := c.MustFn(rule, "tree", "Tree", "getLastRootWithTx")
 	if lr != nil {
 		ok := false
+		detail := ""
 		core.Instrs(lr, func(i ssa.Instruction) {
 			if core.CallName(i) != "github.com/russross/meddler.QueryRow" {
 				return
 			}
-			t := sx.Of(core.AsCall(i).Args[2])
-			format := ""
-			t.Walk(func(x *core.Term) {
-				if x.Op == "const" && strings.Contains(x.Name, "SELECT") {
-					format = x.Name
-				}
-			})
-			if uq, err := strconv.Unquote(format); err == nil {
-				format = uq
+			// the statement text is folded through Sprintf / helpers' clause arguments (see sqlq.go)
+			tk := " " + strings.Join(sqlTokensUpper(stmtText(core.AsCall(i).Args[2], 0)), " ") + " "
+			handle := stripIface(core.AsCall(i).Args[0])
+			ok = len(strings.Fields(tk)) > 3 && strings.HasPrefix(tk, " SELECT * FROM ") && tableMatches(strings.Fields(tk)[3], "TREE:ROOT") && strings.HasSuffix(tk, " ORDER BY BLOCK_NUM DESC , BLOCK_POSITION DESC LIMIT 1 ") &&
+				(handle == ssa.Value(lr.Params[1]) || sx.Of(handle).String() == "tx")
+			if !ok {
+				detail = tk + " on " + sx.Of(handle).String()
 			}
-			tk := " " + strings.Join(sqlTokensUpper(format), " ") + " "
-			ok = strings.HasSuffix(tk, " ORDER BY BLOCK_NUM DESC , BLOCK_POSITION DESC LIMIT 1 ") && strings.Contains(sx.Of(core.AsCall(i).Args[2]).String(), "t.rootTable") &&
-				stripIface(core.AsCall(i).Args[0]) == ssa.Value(lr.Params[1])
 		})
-		c.Decide(ok, rule, "tree.(*Tree).getLastRootWithTx#statement", lr.Pos(), "the last root is the last in (block_num, block_position) order, read on the caller's handle")
+		c.Decide(ok, rule, "tree.(*Tree).getLastRootWithTx#statement", lr.Pos(), "the last root is the last in (block_num, block_position) order, read on the caller's handle "+detail)
 	}
 }
 
@@ -217,4 +222,29 @@ func init() {
 			{ID: "C08-pair", Floor: 3, Run: c08Pair, Text: "[PROV] (index, root) pairs passed to proof generation belong together"},
 		},
 	})
+}
+
+// nilPreserving: g(err error) error returns its parameter, or a package-level sentinel on an errors.Is(param, …) edge
+// (which implies param != nil): the result is nil exactly when the parameter is.
+func nilPreserving(g *ssa.Function) bool {
+	if g.Blocks == nil || len(g.Params) != 1 || g.Signature.Results().Len() != 1 {
+		return false
+	}
+	sx := core.NewSymx().Bind(g.Params[0], "ERR")
+	isErr := core.TermEdges(g, sx, func(s string, _ *core.Term) bool { return strings.HasPrefix(s, "errors.Is(ERR, ") }, true)
+	n := 0
+	for _, rc := range core.ReturnCases(g) {
+		if len(rc.Values) != 1 {
+			return false
+		}
+		n++
+		t := sx.Of(rc.Values[0])
+		switch {
+		case t.String() == "ERR":
+		case t.Op == "global" && len(isErr) > 0 && rc.ReachableOnlyVia(g, isErr):
+		default:
+			return false
+		}
+	}
+	return n > 0
 }
